@@ -45,7 +45,7 @@ class SimThread:
                  'exc_tb', 'parked', 'op', 'obj', 'enabled_fn', 'nops', 'nstable',
                  'stall_until', 'idle_stall', 'inject', 'started', 'retval',
                  'kind_counts', 'pytarget', 'last_kind', 'last_obj', 'spin', 'baton_done',
-                 'line_arm', 'proc', 'daemon', 'dead')
+                 'line_arm', 'proc', 'daemon', 'dead', 'enabled_at', 'idle_since')
 
     def __init__(self, sim, tid, name, role, fn):
         self.sim = sim
@@ -79,6 +79,8 @@ class SimThread:
         self.proc = None       # which simulated OS process the thread belongs to
         self.daemon = False
         self.dead = False      # killed by the exit of its process (a daemon thread)
+        self.enabled_at = None     # simulated time since which it has been runnable but not run
+        self.idle_since = None     # simulated time at which its 'until idle' stall began
 
     def is_enabled(self):
         if self.dead:
@@ -136,15 +138,20 @@ class Interrupt:
     """Raise `exc_type` in thread `role` at its `index`-th stable operation -- or, if `kind` is
     given, at its (n+1)-th operation of that kind (the primitive it is parked on raises instead
     of performing the operation)."""
-    __slots__ = ('role', 'index', 'exc_type', 'fired', 'kind', 'n')
+    __slots__ = ('role', 'index', 'exc_type', 'fired', 'kind', 'n', 'anchor')
 
-    def __init__(self, role, index=None, exc_type=KeyboardInterrupt, kind=None, n=None):
+    def __init__(self, role, index=None, exc_type=KeyboardInterrupt, kind=None, n=None,
+                 anchor=None):
         self.role = role
         self.index = index
         self.exc_type = exc_type
         self.fired = False
         self.kind = kind
         self.n = n
+        # anchor='q.put': n counts the operations of `kind` the thread performs AFTER its first
+        # operation of kind `anchor` (so that the count does not depend on how many operations --
+        # e.g. iterations of a wait-with-timeout loop -- a schedule made it spend before that)
+        self.anchor = anchor
 
 
 # ---------------------------------------------------------------------------------------------
@@ -291,6 +298,17 @@ class Sim:
         self.hang_interrupt_fired = False
         # source files whose lines count for Stall(lines=k): the package under test
         self.trace_root = None
+        # Fairness in simulated time.  A policy may prefer firing events to running a runnable
+        # thread (that is how a thread is made slow relative to the network), but on a tree whose
+        # waits carry timeouts the supply of timer events never ends, and 'events first' would
+        # starve the thread for ever.  So at most MAX_DEFER simulated seconds may pass while a
+        # thread stays runnable without being run (long delays are what explicit stalls are
+        # for); an 'until everything else is idle' stall ends after IDLE_CAP simulated seconds at
+        # the latest; and the operator of `interrupt_on_hang` loses patience at `hang_deadline`.
+        self.max_defer = 2.0
+        self.idle_cap = 3600.0
+        self.hang_deadline = None
+        self._anchor_snaps = {}
         # Process model: threads spawned with proc=P (and the threads they start) form one OS
         # process whose main thread is the first of them.  When that main thread has returned (or
         # died) and every non-daemon thread of the process has finished, the process exits: its
@@ -495,7 +513,16 @@ class Sim:
             for s in il:
                 if s.fired:
                     continue
-                if s.kind is not None:
+                if s.kind is not None and s.anchor is not None:
+                    snap = self._anchor_snaps.get((t.tid, s.anchor))
+                    if snap is None and t.kind_counts.get(s.anchor, 0) > 0:
+                        # first look after the anchor operation was performed: remember how many
+                        # operations of each kind lay before it (the anchor itself included)
+                        snap = dict(t.kind_counts)
+                        self._anchor_snaps[(t.tid, s.anchor)] = snap
+                    hit = (snap is not None and kind == s.kind and
+                           t.kind_counts.get(kind, 0) - snap.get(kind, 0) == s.n)
+                elif s.kind is not None:
                     hit = (kind == s.kind and t.kind_counts.get(kind, 0) == s.n)
                 else:
                     hit = (t.nstable == s.index)
@@ -551,6 +578,7 @@ class Sim:
                              'idle' if s.duration is None else repr(s.duration), t.nstable))
         if s.duration is None:
             t.idle_stall = True
+            t.idle_since = self.now
         else:
             until = self.now + s.duration
             t.stall_until = until
@@ -581,8 +609,32 @@ class Sim:
         while True:
             if self.proc_main:
                 self._check_process_exit()
-            enabled = [t for t in threads if t.parked and not t.finished and t.is_enabled()]
+            enabled = []
+            for t in threads:
+                if t.parked and not t.finished and t.is_enabled():
+                    enabled.append(t)
+                    if t.enabled_at is None:
+                        t.enabled_at = self.now
+                else:
+                    t.enabled_at = None
             has_event = bool(self.events)
+            if has_event:
+                nxt = self.events[0][0]
+                capped = [t for t in threads if t.idle_stall and not t.finished and not t.dead
+                          and nxt - t.idle_since > self.idle_cap]
+                if capped:
+                    t = capped[0]
+                    t.idle_stall = False
+                    self.idle_released += 1
+                    self._mark_fault()
+                    if self.record_on:
+                        self.log.append((self.decisions, self.now, t.role, 'stall.end',
+                                         'idle-cap', None))
+                    continue
+                if self.interrupt_on_hang and not self.hang_interrupt_fired and \
+                        self.hang_deadline is not None and nxt > self.hang_deadline and \
+                        self._fire_hang_interrupt():
+                    continue
             if not enabled and not has_event:
                 # release one idle-stalled thread, if any (limit case of "however long")
                 idle = [t for t in threads if t.idle_stall and not t.finished and not t.dead]
@@ -595,20 +647,15 @@ class Sim:
                         self.log.append((self.decisions, self.now, t.role, 'stall.end', 'idle',
                                          None))
                     continue
-                if self.interrupt_on_hang and not self.hang_interrupt_fired:
-                    self.hang_interrupt_fired = True
-                    t = next((t for t in threads if t.role == self.interrupt_on_hang and
-                              t.parked and not t.finished), None)
-                    if t is not None:
-                        t.inject = KeyboardInterrupt
-                        self.count_fault('interrupt.on_hang')
-                        self._mark_fault()
-                        if self.record_on:
-                            self.log.append((self.decisions, self.now, t.role, 'hang.interrupt',
-                                             t.op, None))
-                        continue
+                if self.interrupt_on_hang and not self.hang_interrupt_fired and \
+                        self._fire_hang_interrupt():
+                    continue
                 break
             choice = policy.choose(self, enabled, has_event)
+            if choice is EVENT and enabled:
+                oldest = min(enabled, key=lambda t: (t.enabled_at, t.tid))
+                if self.events[0][0] - oldest.enabled_at > self.max_defer:
+                    choice = oldest
             self.decisions += 1
             if choice is EVENT:
                 if not has_event:
@@ -636,6 +683,19 @@ class Sim:
             self.outcome = 'deadlock'
             self.blocked = [(t.role, t.op, t.obj) for t in unfinished]
 
+    def _fire_hang_interrupt(self):
+        self.hang_interrupt_fired = True
+        t = next((t for t in self.threads if t.role == self.interrupt_on_hang and
+                  t.parked and not t.finished and not t.dead), None)
+        if t is None:
+            return False
+        t.inject = KeyboardInterrupt
+        self.count_fault('interrupt.on_hang')
+        self._mark_fault()
+        if self.record_on:
+            self.log.append((self.decisions, self.now, t.role, 'hang.interrupt', t.op, None))
+        return True
+
     def _check_process_exit(self):
         for proc, mt in self.proc_main.items():
             if proc in self.proc_exited or not mt.finished:
@@ -654,6 +714,7 @@ class Sim:
 
     def _switch_to(self, t):
         t.parked = False
+        t.enabled_at = None
         self.current = t
         t.baton.release()
         if not self.ctl.acquire(True, self.WALL_TIMEOUT):
